@@ -229,7 +229,7 @@ def minimise(z, mod, plan, v, budget=120):
             while k < len(best["tasks"][ti]["ops"]) and runs[0] < budget:
                 ops = best["tasks"][ti]["ops"]
                 seg = ops[k:k + chunk]
-                if any(op.get("keep") for op in seg):
+                if any(op.get("keep") or op.get("act") == "barrier" for op in seg):      # barriers pair up across tasks: dropping one manufactures a deadlock or un-quiets a quiet point
                     k += chunk; continue
                 cand = copy.deepcopy(best)
                 del cand["tasks"][ti]["ops"][k:k + chunk]
